@@ -450,15 +450,23 @@ fn cons_scenario(thorough: bool) -> Scenario {
 // scenario B: foreign keys (children with CASCADE, NO ACTION, SET NULL actions on one parent)
 // ------------------------------------------------------------------------------------------------
 
-fn fk_scenario(thorough: bool) -> Scenario {
-    let prelude = strs(&[
-        "CREATE TABLE p (id INT PRIMARY KEY, v INT UNIQUE)",
-        "CREATE TABLE c1 (id INT PRIMARY KEY, pid INT, FOREIGN KEY (pid) REFERENCES p (id) ON DELETE CASCADE ON UPDATE CASCADE)",
-        "CREATE INDEX c1p ON c1 (pid)",
-        "CREATE TABLE c2 (id INT PRIMARY KEY, pid INT, FOREIGN KEY (pid) REFERENCES p (id))",
-        "CREATE TABLE c3 (id INT PRIMARY KEY, pid INT, FOREIGN KEY (pid) REFERENCES p (id) ON DELETE SET NULL ON UPDATE SET NULL)",
-        "CREATE TABLE sc (id INT NOT NULL, pid INT)",
-    ]);
+/// `by_unique`: the children reference the parent's UNIQUE non-key column `v` instead of its primary
+/// key (parent-side checks that only look at the primary key, or only at statements that assign it,
+/// are the classic slip), and the parent statements assign `v`.
+fn fk_scenario(thorough: bool, by_unique: bool) -> Scenario {
+    let pc = if by_unique { "v" } else { "id" };
+    let pci: usize = if by_unique { 1 } else { 0 };
+    // the referenced key value of parent i
+    let key = |i: i64| -> i64 { if by_unique { 10 * i } else { i } };
+    let step: i64 = if by_unique { 10 } else { 1 };
+    let prelude: Vec<String> = vec![
+        "CREATE TABLE p (id INT PRIMARY KEY, v INT UNIQUE)".to_string(),
+        format!("CREATE TABLE c1 (id INT PRIMARY KEY, pid INT, FOREIGN KEY (pid) REFERENCES p ({}) ON DELETE CASCADE ON UPDATE CASCADE)", pc),
+        "CREATE INDEX c1p ON c1 (pid)".to_string(),
+        format!("CREATE TABLE c2 (id INT PRIMARY KEY, pid INT, FOREIGN KEY (pid) REFERENCES p ({}))", pc),
+        format!("CREATE TABLE c3 (id INT PRIMARY KEY, pid INT, FOREIGN KEY (pid) REFERENCES p ({}) ON DELETE SET NULL ON UPDATE SET NULL)", pc),
+        "CREATE TABLE sc (id INT NOT NULL, pid INT)".to_string(),
+    ];
     let schema = Schema {
         tables: vec![
             TableDecl { name: "P", cols: vec!["id", "v"], defaults: vec![N, N] },
@@ -468,19 +476,19 @@ fn fk_scenario(thorough: bool) -> Scenario {
             TableDecl { name: "SC", cols: vec!["id", "pid"], defaults: vec![N, N] },
         ],
         fks: vec![
-            Fk { child: "C1", cols: vec![1], parent: "P", pcols: vec![0], on_delete: Act::Cascade, on_update: Act::Cascade },
-            Fk { child: "C2", cols: vec![1], parent: "P", pcols: vec![0], on_delete: Act::NoAction, on_update: Act::NoAction },
-            Fk { child: "C3", cols: vec![1], parent: "P", pcols: vec![0], on_delete: Act::SetNull, on_update: Act::SetNull },
+            Fk { child: "C1", cols: vec![1], parent: "P", pcols: vec![pci], on_delete: Act::Cascade, on_update: Act::Cascade },
+            Fk { child: "C2", cols: vec![1], parent: "P", pcols: vec![pci], on_delete: Act::NoAction, on_update: Act::NoAction },
+            Fk { child: "C3", cols: vec![1], parent: "P", pcols: vec![pci], on_delete: Act::SetNull, on_update: Act::SetNull },
         ],
     };
-    let setup = strs(&[
-        "INSERT INTO p VALUES (1, 10)",
-        "INSERT INTO p VALUES (2, 20)",
-        "INSERT INTO c1 VALUES (1, 1)",
-        "INSERT INTO c2 VALUES (1, 2)",
-        "INSERT INTO c3 VALUES (1, 1)",
-        "INSERT INTO c1 VALUES (2, 2)",
-    ]);
+    let setup: Vec<String> = vec![
+        "INSERT INTO p VALUES (1, 10)".to_string(),
+        "INSERT INTO p VALUES (2, 20)".to_string(),
+        format!("INSERT INTO c1 VALUES (1, {})", key(1)),
+        format!("INSERT INTO c2 VALUES (1, {})", key(2)),
+        format!("INSERT INTO c3 VALUES (1, {})", key(1)),
+        format!("INSERT INTO c1 VALUES (2, {})", key(2)),
+    ];
     let mut cases: Vec<Case> = vec![];
     let wipe = strs(&["DELETE FROM c1", "DELETE FROM c2", "DELETE FROM c3", "DELETE FROM p", "DELETE FROM sc"]);
     let max_n: usize = if thorough { 4 } else { 3 };
@@ -490,12 +498,12 @@ fn fk_scenario(thorough: bool) -> Scenario {
             // on parent k (k = 0: no such child, the statement succeeds)
             let mut prep = wipe.clone();
             let prow: Vec<Vec<Option<i64>>> = (1..=n as i64).map(|i| vec![s(i), s(10 * i)]).collect();
-            let crow: Vec<Vec<Option<i64>>> = (1..=n as i64).map(|i| vec![s(i), s(i)]).collect();
+            let crow: Vec<Vec<Option<i64>>> = (1..=n as i64).map(|i| vec![s(i), s(key(i))]).collect();
             prep.push(format!("INSERT INTO p VALUES {}", rows_sql(&prow)));
             prep.push(format!("INSERT INTO c1 VALUES {}", rows_sql(&crow)));
             prep.push(format!("INSERT INTO c3 VALUES {}", rows_sql(&crow)));
             if k > 0 {
-                prep.push(format!("INSERT INTO c2 VALUES (1, {})", k));
+                prep.push(format!("INSERT INTO c2 VALUES (1, {})", key(k as i64)));
             }
             let fault = if k == 0 { "none" } else { "fk_no_action_child" };
             cases.push(Case {
@@ -518,8 +526,8 @@ fn fk_scenario(thorough: bool) -> Scenario {
             });
             cases.push(Case {
                 prep: prep.clone(),
-                stmt: "UPDATE p SET id = id + 10".into(),
-                op: Some(Op::Update { table: "P", pred: Pred::NoWhere, col: 0, set: SetExpr::Add(10) }),
+                stmt: if by_unique { "UPDATE p SET v = v + 1".into() } else { "UPDATE p SET id = id + 10".into() },
+                op: Some(Op::Update { table: "P", pred: Pred::NoWhere, col: pci, set: SetExpr::Add(if by_unique { 1 } else { 10 }) }),
                 kind: "update_parent_key",
                 fault,
                 n,
@@ -537,8 +545,8 @@ fn fk_scenario(thorough: bool) -> Scenario {
                 });
                 cases.push(Case {
                     prep: prep.clone(),
-                    stmt: format!("UPDATE p SET id = 9 WHERE id = {}", k),
-                    op: Some(Op::Update { table: "P", pred: Pred::Eq(0, k as i64), col: 0, set: SetExpr::Const(s(9)) }),
+                    stmt: format!("UPDATE p SET {} = 9 WHERE id = {}", pc, k),
+                    op: Some(Op::Update { table: "P", pred: Pred::Eq(0, k as i64), col: pci, set: SetExpr::Const(s(9)) }),
                     kind: "update_parent_key_by_key",
                     fault,
                     n,
@@ -551,7 +559,7 @@ fn fk_scenario(thorough: bool) -> Scenario {
             // child rows whose k-th row has no parent: VALUES, bulk INSERT … SELECT, normal INSERT … SELECT
             let mut prep = wipe.clone();
             prep.push("INSERT INTO p VALUES (1, 10), (2, 20), (3, 30)".into());
-            let rows: Vec<Vec<Option<i64>>> = (1..=n as i64).map(|i| vec![s(10 + i), s(if i as usize == k { 9 } else { 1 + (i % 3) })]).collect();
+            let rows: Vec<Vec<Option<i64>>> = (1..=n as i64).map(|i| vec![s(10 + i), s(if i as usize == k { 9 } else { key(1 + (i % 3)) })]).collect();
             cases.push(Case {
                 prep: prep.clone(),
                 stmt: format!("INSERT INTO c2 VALUES {}", rows_sql(&rows)),
@@ -582,13 +590,13 @@ fn fk_scenario(thorough: bool) -> Scenario {
                 k,
             });
             // UPDATE of the child: the k-th row moves to a missing parent (3 + 1)
-            let rows: Vec<Vec<Option<i64>>> = (1..=n as i64).map(|i| vec![s(i), s(if i as usize == k { 3 } else { 1 + (i % 2) })]).collect();
+            let rows: Vec<Vec<Option<i64>>> = (1..=n as i64).map(|i| vec![s(i), s(if i as usize == k { key(3) } else { key(1 + (i % 2)) })]).collect();
             let mut prep3 = prep.clone();
             prep3.push(format!("INSERT INTO c2 VALUES {}", rows_sql(&rows)));
             cases.push(Case {
                 prep: prep3,
-                stmt: "UPDATE c2 SET pid = pid + 1".into(),
-                op: Some(Op::Update { table: "C2", pred: Pred::NoWhere, col: 1, set: SetExpr::Add(1) }),
+                stmt: format!("UPDATE c2 SET pid = pid + {}", step),
+                op: Some(Op::Update { table: "C2", pred: Pred::NoWhere, col: 1, set: SetExpr::Add(step) }),
                 kind: "update_child_fk",
                 fault: "fk_orphan",
                 n,
@@ -598,22 +606,22 @@ fn fk_scenario(thorough: bool) -> Scenario {
     }
     // statements on whatever the set-up alphabet built
     for (stmt, kind) in [
-        ("DELETE FROM p WHERE id = 1", "delete_parent_by_key"),
-        ("DELETE FROM p WHERE id = 2", "delete_parent_by_key"),
-        ("DELETE FROM p", "delete_parent_nowhere"),
-        ("DELETE FROM p WHERE v >= 10", "delete_parent_range"),
-        ("UPDATE p SET id = id + 10", "update_parent_key"),
-        ("UPDATE p SET id = 7 WHERE id = 2", "update_parent_key_by_key"),
-        ("TRUNCATE TABLE p", "truncate_parent"),
-        ("INSERT INTO c2 VALUES (5, 1), (6, 9)", "insert_child_values"),
-        ("UPDATE c1 SET pid = 9", "update_child_fk"),
+        ("DELETE FROM p WHERE id = 1".to_string(), "delete_parent_by_key"),
+        ("DELETE FROM p WHERE id = 2".to_string(), "delete_parent_by_key"),
+        ("DELETE FROM p".to_string(), "delete_parent_nowhere"),
+        ("DELETE FROM p WHERE v >= 10".to_string(), "delete_parent_range"),
+        (if by_unique { "UPDATE p SET v = v + 1".to_string() } else { "UPDATE p SET id = id + 10".to_string() }, "update_parent_key"),
+        (format!("UPDATE p SET {} = 7 WHERE id = 2", pc), "update_parent_key_by_key"),
+        ("TRUNCATE TABLE p".to_string(), "truncate_parent"),
+        (format!("INSERT INTO c2 VALUES (5, {}), (6, 9)", key(1)), "insert_child_values"),
+        ("UPDATE c1 SET pid = 9".to_string(), "update_child_fk"),
     ] {
-        cases.push(Case { prep: vec![], stmt: stmt.into(), op: None, kind, fault: "state_dependent", n: 0, k: 0 });
+        cases.push(Case { prep: vec![], stmt, op: None, kind, fault: "state_dependent", n: 0, k: 0 });
     }
     let future = vec![
-        one("INSERT INTO c1 VALUES (20, 1)"),
-        one("INSERT INTO c1 VALUES (20, 2)"),
-        one("INSERT INTO c1 VALUES (20, 3)"),
+        vec![format!("INSERT INTO c1 VALUES (20, {})", key(1))],
+        vec![format!("INSERT INTO c1 VALUES (20, {})", key(2))],
+        vec![format!("INSERT INTO c1 VALUES (20, {})", key(3))],
         one("INSERT INTO c1 VALUES (20, 11)"),
         one("INSERT INTO c1 VALUES (1, NULL)"),
         one("INSERT INTO c2 VALUES (1, NULL)"),
@@ -622,10 +630,10 @@ fn fk_scenario(thorough: bool) -> Scenario {
         one("INSERT INTO p VALUES (11, 98)"),
         one("DELETE FROM p WHERE id = 1"),
         one("DELETE FROM p WHERE id = 11"),
-        one("SELECT id FROM c1 WHERE pid = 1"),
+        vec![format!("SELECT id FROM c1 WHERE pid = {}", key(1))],
         one("SELECT id FROM c1 WHERE pid >= 1 ORDER BY pid, id"),
     ];
-    Scenario { name: "fk".into(), prelude, schema, setup, cases, future }
+    Scenario { name: if by_unique { "fkuniq".into() } else { "fk".into() }, prelude, schema, setup, cases, future }
 }
 
 // ------------------------------------------------------------------------------------------------
@@ -793,7 +801,7 @@ fn trig_scenario(timing: &'static str, event: &'static str, gran: &'static str, 
 }
 
 pub fn scenarios(thorough: bool) -> Vec<Scenario> {
-    let mut v = vec![cons_scenario(thorough), fk_scenario(thorough)];
+    let mut v = vec![cons_scenario(thorough), fk_scenario(thorough, false), fk_scenario(thorough, true)];
     for timing in ["BEFORE", "AFTER"] {
         for event in ["INSERT", "UPDATE", "DELETE"] {
             for gran in ["ROW", "STATEMENT"] {
